@@ -23,6 +23,7 @@ on the alphabets in prepare(), not guessed from behaviour.
 
 import itertools
 import os
+import pathlib
 import shutil
 import tempfile
 
@@ -372,6 +373,9 @@ def shards(tier):
                 out.append({"cls": "lod", "fmt": "csv", "suffix": suffix, "n": n, "tier": tier, "encoding": enc})
                 out.append({"cls": "lod", "fmt": "json", "suffix": suffix, "n": n, "tier": tier, "encoding": enc})
             out.append({"cls": "lod", "fmt": "pickle", "suffix": suffix, "n": n, "tier": tier})
+    # forms of the path argument (each format once per form)
+    for form in ("bare", "bare-pathlib", "pathlib", "new-parent", "relative-subdir"):
+        out.append({"cls": "paths", "form": form, "tier": tier})
     # size ladder: files larger than the readers' block size (Arrow reads CSV in 1 MiB blocks)
     for suffix in ("", ".gz"):
         out.append({"cls": "big", "suffix": suffix, "rows": 3000 if tier == "quick" else 30000, "tier": tier})
@@ -380,6 +384,15 @@ def shards(tier):
 
 
 def run_shard(shard, rec):
+    if shard["cls"] == "paths":
+        cols = [["k", "i8", [1, 2]], ["s", "str", ["x y", None]]]
+        items = [[["a", "x"], ["b", "y z"]], [["a", "u"], ["b", "v"]]]
+        for suffix in ("", ".gz"):
+            for fmt, opts in (("csv", {"sep": ",", "header": True, "encoding": "utf-8"}), ("json", {"encoding": "utf-8"}), ("npz", {}), ("parquet", {}), ("pickle", {})):
+                check_case({"cls": "df", "fmt": fmt, "suffix": suffix, "opts": opts, "cols": cols, "path_form": shard["form"]}, rec)
+            for fmt, opts in (("csv", {"sep": ",", "header": True, "encoding": "utf-8"}), ("json", {"encoding": "utf-8"}), ("pickle", {})):
+                check_case({"cls": "lod", "fmt": fmt, "suffix": suffix, "opts": opts, "items": items, "path_form": shard["form"]}, rec)
+        return
     if shard["cls"] == "big":
         for fmt, opts in (("csv", {"sep": ",", "header": True, "encoding": "utf-8"}), ("csv", {"sep": ";", "header": False, "encoding": "utf-8"}),
                           ("parquet", {}), ("pickle", {}), ("json", {"encoding": "utf-8"})):
@@ -466,12 +479,39 @@ def df_view(d):
 
 
 def execute(case):
-    """Run one write+read. Returns (in_key, out_key, magic_state, [(clause, detail), ...])."""
+    """Run one write+read (in the scratch directory as working directory for the relative path forms)."""
+    cwd = os.getcwd()
+    try:
+        return _execute(case)
+    finally:
+        os.chdir(cwd)
+
+
+def _execute(case):
+    """Returns (in_key, out_key, magic_state, [(clause, detail), ...])."""
     fmt, suffix, opts = case["fmt"], case["suffix"], dict(case["opts"])
     is_df = case["cls"] == "df"
     d = scratch_dir()
     clean(d)
-    path = os.path.join(d, "t" + EXT[fmt] + suffix)
+    name = "t" + EXT[fmt] + suffix
+    form = case.get("path_form", "abs")
+    if form == "abs":
+        path = os.path.join(d, name)
+    elif form == "bare":            # a bare file name in the current directory
+        os.chdir(d)
+        path = name
+    elif form == "bare-pathlib":
+        os.chdir(d)
+        path = pathlib.Path(name)
+    elif form == "pathlib":
+        path = pathlib.Path(d) / name
+    elif form == "new-parent":      # parent directories that do not exist yet are created by the writers
+        path = os.path.join(d, "new", "dir", name)
+    elif form == "relative-subdir":
+        os.chdir(d)
+        path = os.path.join("sub", name)
+    else:
+        raise RuntimeError(f"bad path form {form!r}")
     if is_df:
         obj = build_frame(case["cols"])
         in_key = V.frame_key(obj)
